@@ -430,3 +430,26 @@ Proof.
     unfold session_step, udp_wire_query, udp_exchange. rewrite E.
     unfold udp_with_fallback. rewrite put_id_trunc, tc_bit, TC. reflexivity.
 Qed.
+
+(** * The TCP retry goes where the UDP query went *)
+
+Lemma retry_same_server addr dial_addr d :
+  udp_upstream_dials addr dial_addr = Some d -> d_tcp d = d_udp d.
+Proof.
+  unfold udp_upstream_dials.
+  destruct (Addr.new_upstream Addr.ip_literal addr dial_addr false) as [t|]; [|discriminate].
+  destruct (Addr.t_transport t); try discriminate.
+  intros [= <-]. reflexivity.
+Qed.
+
+(** and that place is the one C18 is about: host and port of the target *)
+Lemma udp_dials_target addr dial_addr d :
+  udp_upstream_dials addr dial_addr = Some d ->
+  exists t, Addr.new_upstream Addr.ip_literal addr dial_addr false = Some t /\
+            Addr.t_transport t = Addr.TUdp /\ d_udp d = (Addr.t_host t, Addr.t_port t).
+Proof.
+  unfold udp_upstream_dials.
+  destruct (Addr.new_upstream Addr.ip_literal addr dial_addr false) as [t|]; [|discriminate].
+  destruct (Addr.t_transport t) eqn:T; try discriminate.
+  intros [= <-]. exists t. auto.
+Qed.
